@@ -68,7 +68,7 @@ impl Prop for C03Prop {
         "C03"
     }
     fn rule(&self) -> String {
-        "Streams (proptest tapes): prog / progbig = grammar-derived programs with comments in pretty / compact / one-space / wild layouts (as C02), narrow widths emphasised; seeds = repository seed inputs and expected outputs on which both scanners agree; each x generated configuration. Oracle: with y = format(x): format(y) == y byte for byte, and format^3(x) == format^2(x). Non-trivial = format(x) != x and the output has a wrapped line or a comment; distinct by hash of (input, configuration)."
+        "Streams (proptest tapes): prog / progbig = grammar-derived programs with comments in pretty / compact / one-space / wild layouts (as C02), narrow widths emphasised; seeds = repository seed inputs and expected outputs on which both scanners agree; mlprog / lits / mlperturb = programs with multi-line string literals (several per statement, chained through call arguments, one literal of a canonical text mis-indented); each x generated configuration. Oracle: with y = format(x): format(y) == y byte for byte, and format^3(x) == format^2(x). Stream cli = the statement's second form through the binary: the program is written as UTF-8 / UTF-8+BOM / UTF-16LE+BOM / windows-1252 with the configuration in pasfmt.toml or -C options; `pasfmt f` then `pasfmt --mode=check f` must exit 0 and not modify f; a second `pasfmt f` must leave bytes and modification time untouched. Non-trivial = format(x) != x and the output has a wrapped line or a comment; distinct by hash of (input, configuration)."
             .into()
     }
     fn assumptions(&self) -> Vec<String> {
@@ -81,6 +81,9 @@ impl Prop for C03Prop {
         v.push(Stream::random("lits", if q { 1500 } else { 20000 }, 300));
         v.push(Stream::random("mlperturb", if q { 600 } else { 8000 }, 700));
         v.push(Stream::random("seeds", if q { 800 } else { 8000 }, 32));
+        // the statement's second form: `pasfmt f && pasfmt --mode=check f`, and a second
+        // in-place run rewrites nothing
+        v.push(Stream::random("cli", if q { 200 } else { 2000 }, 700).shards(if q { 4 } else { 8 }));
         v
     }
     fn generate(&self, stream: &str, t: &mut Tape) -> Option<Case> {
@@ -154,6 +157,22 @@ impl Prop for C03Prop {
                 let w = wf::build(t, 60, opts, None, None)?;
                 wf::case_of(&w, cfg, "mlprog")
             }
+            "cli" => {
+                let enc = *t.pick(&["utf-8", "utf-8-bom", "utf-16le-bom", "windows-1252", "utf-8"]);
+                let cfg_in_file = t.chance(1, 2);
+                let mut c = match t.below(3) {
+                    0 => crate::props::c12::C12.generate("lits", t)?,
+                    1 => {
+                        let opts = crate::gen::prog::Opts { mlstr: true, ..Default::default() };
+                        let w = wf::build(t, 60, opts, None, None)?;
+                        wf::case_of(&w, Cfg::gen_unsaturated(t), "cli")
+                    }
+                    _ => wf::wf_generate("prog", t, true)?,
+                };
+                c.gen = "cli".into();
+                c.extra = serde_json::json!({"cli": enc, "cfg_in_file": cfg_in_file});
+                c
+            }
             s => wf::wf_generate(s, t, true)?,
         };
         // emphasise narrow widths: that is where wrapping decisions interact
@@ -165,6 +184,9 @@ impl Prop for C03Prop {
     fn check(&self, case: &Case, ctx: &mut Ctx) -> Outcome {
         if case.ann.is_none() {
             return Outcome::Discard("no-annotation");
+        }
+        if case.extra.get("cli").is_some() {
+            return check_cli(case, ctx);
         }
         let p1 = format_with(&case.cfg, &case.input);
         let limit1 = logcap::any_contains("Iteration limit reached");
@@ -199,4 +221,106 @@ impl Prop for C03Prop {
         let wrapped = p1.lines().count() > case.ann.as_ref().map_or(0, |a| a.lexemes.iter().filter(|l| *l == ";").count() + 2);
         Outcome::Pass { nontrivial: changed && (has_comment || wrapped) }
     }
+}
+
+/// `pasfmt f` then `pasfmt --mode=check f` (must accept), then `pasfmt f` again (must not touch
+/// the file: same bytes, modification time untouched). No reference to the library: the binary
+/// is its own subject here, the oracle is the fixpoint.
+fn check_cli(case: &Case, ctx: &mut Ctx) -> Outcome {
+    use crate::engine::cli;
+    cli::check_no_config_above();
+    let enc = case.extra.get("cli").and_then(|v| v.as_str()).unwrap_or("utf-8");
+    let in_file = case.extra.get("cfg_in_file").and_then(|v| v.as_bool()).unwrap_or(false);
+    let (bytes, enc_opt): (Vec<u8>, &str) = match enc {
+        "utf-8-bom" => {
+            let mut b = vec![0xEF, 0xBB, 0xBF];
+            b.extend_from_slice(case.input.as_bytes());
+            (b, "utf-8")
+        }
+        "utf-16le-bom" => {
+            let mut b = vec![0xFF, 0xFE];
+            for u in case.input.encode_utf16() {
+                b.extend_from_slice(&u.to_le_bytes());
+            }
+            (b, "utf-8")
+        }
+        "windows-1252" => {
+            let (b, _, bad) = encoding_rs::WINDOWS_1252.encode(&case.input);
+            if bad {
+                return Outcome::Discard("not-representable");
+            }
+            (b.into_owned(), "windows-1252")
+        }
+        _ => (case.input.as_bytes().to_vec(), "utf-8"),
+    };
+    let sc = cli::Scratch::new();
+    let p = sc.write("u.pas", &bytes);
+    let mut args: Vec<String> = vec![];
+    if in_file {
+        sc.write("pasfmt.toml", format!("{}encoding = \"{enc_opt}\"\n", case.cfg.to_toml()).as_bytes());
+    } else {
+        args = case.cfg.to_cli();
+        args.push(format!("-Cencoding={enc_opt}"));
+    }
+    ctx.class(&format!("cli:{enc}"));
+    let fail = |clause: &str, msg: String| Outcome::Fail(Failure::new(clause, msg).fact("via-cli").fact(format!("enc:{enc}")));
+    let mut a1 = args.clone();
+    a1.push("u.pas".into());
+    let r = cli::run_pasfmt(&a1, &sc.dir, None, &[]);
+    if !r.ok() {
+        return fail("cli-exit", format!("first run: exit {:?}: {}", r.code, short(&r.stderr_text(), 200)));
+    }
+    let limit = r.stderr_text().contains("Iteration limit reached");
+    let after1 = std::fs::read(&p).unwrap_or_default();
+    let mut a2 = args.clone();
+    a2.push("--mode=check".into());
+    a2.push("u.pas".into());
+    let r = cli::run_pasfmt(&a2, &sc.dir, None, &[]);
+    let limit = limit || r.stderr_text().contains("Iteration limit reached");
+    let mut facts: Vec<String> = vec![];
+    if limit {
+        facts.push("log:iteration-limit".into());
+    }
+    if !r.ok() {
+        // locate the difference with the library for the message and the finding signatures
+        let p1 = format_with(&case.cfg, &case.input);
+        let p2 = format_with(&case.cfg, &p1);
+        facts.extend(mlstr_facts(&case.input, &p1, &p2));
+        let (n, a, b) = first_diff_line(&p1, &p2);
+        return Outcome::Fail(
+            Failure::new(
+                "idempotence",
+                format!(
+                    "--mode=check rejects (exit {:?}) the file pasfmt has just written; library passes differ first in line {n}: {:?} vs {:?}",
+                    r.code,
+                    short(&a, 100),
+                    short(&b, 100)
+                ),
+            )
+            .fact("via-cli")
+            .facts(&facts),
+        );
+    }
+    if std::fs::read(&p).unwrap_or_default() != after1 {
+        return fail("cli-check-wrote", "--mode=check modified the file".into());
+    }
+    let old = cli::age(&p);
+    let r = cli::run_pasfmt(&a1, &sc.dir, None, &[]);
+    if !r.ok() {
+        return fail("cli-exit", format!("second run: exit {:?}: {}", r.code, short(&r.stderr_text(), 200)));
+    }
+    let after2 = std::fs::read(&p).unwrap_or_default();
+    if after2 != after1 {
+        return Outcome::Fail(
+            Failure::new("idempotence", "a second in-place run changed the file pasfmt had just written".into())
+                .fact("via-cli")
+                .facts(&facts),
+        );
+    }
+    if cli::mtime(&p) != Some(old) {
+        return fail("cli-rewrote", "a second in-place run rewrote an already formatted file (modification time changed)".into());
+    }
+    let changed = after1 != bytes;
+    ctx.class_if(changed, "cli:first-run-changed-file");
+    Outcome::Pass { nontrivial: changed }
 }
